@@ -629,7 +629,10 @@ def id_filters(ck, rule_filter, rule_order):
                              "isin filter", found=T.show(gb[1])[:160], required="maps[maps[col].isin(moleculeIds)] before groupby")
             else:
                 fcol = isin[0][1][2] if isin[0][1][0] == "idx" else None
-                ck.judge(fcol == gcol and isin[0][3] == (ids,), rule_filter, "CmapReader.__read:filter", w,
+                given = isin[0][3][0] if len(isin[0][3]) == 1 else None
+                while given is not None and given[0] == "call" and given[1] in ("list", "tuple", "set", "frozenset", "sorted") and len(given[2]) == 1:
+                    given = given[2][0]               # the ids materialised first: the same ids
+                ck.judge(fcol == gcol and given == ids, rule_filter, "CmapReader.__read:filter", w,
                          "filter column == grouping column; the filter uses the ids given and precedes grouping",
                          found=f"filter on {T.show(fcol) if fcol else None} with {T.show(isin[0][3][0])[:40] if isin[0][3] else None}, "
                                f"grouped by {T.show(gcol) if gcol else None}", required="one column, the given ids")
